@@ -19,6 +19,7 @@ pub struct Inner {
     #[getter(skip)]
     pub hidden: String,
     pub p: PathBuf,
+    pub ip: Option<std::net::IpAddr>,
 }
 
 #[derive(Event, FieldGetter, Default, Clone, Debug)]
@@ -47,6 +48,7 @@ fn inner_from(v: &Value) -> Inner {
         p: PathBuf::from(<std::ffi::OsString as std::os::unix::ffi::OsStringExt>::from_vec(
             v["p"].as_array().map(|a| a.iter().map(|b| b.as_u64().unwrap_or(0) as u8).collect()).unwrap_or_default(),
         )),
+        ip: v["ip"].as_str().and_then(|s| s.parse().ok()),
     }
 }
 
@@ -87,6 +89,7 @@ fn inner_gval(v: &Value) -> Value {
         [fd("renamed", json!({"rename": "alias"})), {"scalar": {"u": v["renamed"]}}],
         [fd("hidden", json!("skip")), {"scalar": {"s": v["hidden"]}}],
         [fd("p", Value::Null), {"scalar": {"s": String::from_utf8_lossy(&bytes)}}],
+        [fd("ip", Value::Null), if v["ip"].is_null() { json!("optNone") } else { json!({"optSome": {"scalar": {"s": v["ip"]}}}) }],
     ]}})
 }
 
@@ -121,6 +124,8 @@ fn random_inner(rng: &mut Rng) -> Value {
     json!({
         "s": *rng.pick(&["1", "a", "", "none", "\u{e9}"]), "m": m, "renamed": *rng.pick(&[0u64, 1, 42, u64::MAX]),
         "hidden": "secret", "p": rng.pick(&paths).to_vec(),
+        // canonical texts (what `Display` prints), so that the model side is the text itself
+        "ip": if rng.chance(1, 4) { Value::Null } else { json!(*rng.pick(&["10.0.0.1", "::ffff:10.0.0.1", "::1", "fe80::1"])) },
     })
 }
 
@@ -154,7 +159,10 @@ pub fn event_json(rng: &mut Rng) -> Value {
 
 /// every kind of path into the struct family (declared names, aliases, skipped, map keys, too deep, through optionals)
 pub fn paths() -> Vec<Vec<String>> {
-    let raw: [&[&str]; 35] = [
+    let raw: [&[&str]; 45] = [
+        // nothing continues past a scalar, whatever its type
+        &["inner", "p", "x"], &["oinner", "p", "x", "y"], &["inner", "ip"], &["inner", "ip", "x"], &["oinner", "ip", "v4 addr"], &["inner", "s", "x"],
+        &["f", "x"], &["flag", "0"], &["onum", "x"], &["oinner", "ip"],
         &["env"], &["env", "HOME"], &["env", " HOME"], &["env", "USER", "name"], &["env", "a.b"], &["env", "a", "b"], &["inner", "m", "k.j"], &["env", "nope"],
         &["opt"], &["opt", "x"], &["onum"], &["num"], &["num", "x"], &["f"], &["flag"], &["inner"], &["inner", "s"], &["inner", "m"],
         &["inner", "m", "k"], &["inner", "m", " k"], &["inner", "m", "k", "j"], &["inner", "alias"], &["inner", "renamed"], &["inner", "hidden"],
